@@ -11,6 +11,12 @@ namespace MesonModel.Eval
 
 abbrev Str := List Char
 
+/-- `cs!"abc"` is the character list `['a', 'b', 'c']` (expanded at elaboration time, so that no
+`String` operation remains in the model) -/
+macro:max "cs!" s:str : term => do
+  let elems := s.getString.toList.toArray.map Lean.Syntax.mkCharLit
+  `([$elems,*])
+
 /-- `ArithmeticNode.operation` -/
 inductive ArithOp where
   | add | sub | mul | div | mod
